@@ -76,6 +76,11 @@ def check(run):
             if method == "explain_many_original":
                 _original(run, prog, cls, s, fq, roles, fields, chains)
     run.need(n_chain >= 3 or run.findings, f"only {n_chain} SAGE chains found (expected >= 3)")
+
+    # the PFI / SAGE quantities whose expectation is taken (C02 FORMULA, C03 NEW) are obligations here too
+    from .c06 import depends_on
+    depends_on(run, "C02", {"FORMULA"})
+    depends_on(run, "C03", {"NEW", "KEY", "COMPL"})
     # ROW clauses of the imputers
     for cls in imputer_classes(prog):
         if cls.name == "MarginalImputer":
